@@ -7,6 +7,7 @@ import (
 	"sync"
 
 	"verif/harness/core"
+	"verif/harness/drive/labels"
 	"verif/harness/drive/outline"
 )
 
@@ -389,7 +390,11 @@ func run(ctx *core.Ctx) error {
 		"on the real code: every complete behaviour of Gen_PageTree_small*.cfg (scaled), simulated long behaviours beyond")
 	// extension beyond the listed properties: the document outline
 	// (spec/nav/Outline.tla); deviations are NOTE lines, not verdicts
-	return outline.Run(ctx)
+	if err := outline.Run(ctx); err != nil {
+		return err
+	}
+	// ... and page labels (spec/nav/PageLabels.tla)
+	return labels.Run(ctx)
 }
 
 func treeStats(nodes []fnode) (depth, fan int, empty, single, indirect bool) {
